@@ -159,6 +159,10 @@ class Execution:
             base = ds.RandomStrategy(seed, p_time=sc.get("p_time", 0.0), crash_at=crash_at, stick=sc.get("stick", 0.0))
         if sc.get("slow_holder"):
             base = ds.SlowHolderStrategy(base, sc["slow_holder"], budget=sc.get("slow_budget", 600), stall=sc.get("slow_stall", 0.5))
+        if sc.get("slow_after"):
+            sa = sc["slow_after"]
+            base = ds.SlowAfterEventStrategy(base, sa["start"], nth=sa.get("nth", 1), until=tuple(sa.get("until", ("FnEnter", "BodyEnd"))),
+                                             stall=sa.get("stall", 0.5))
         if str(inv) in scripts or inv in scripts:
             return ds.ScriptedStrategy(scripts.get(str(inv), scripts.get(inv)), fallback=base), crash_at
         return base, crash_at
